@@ -39,6 +39,10 @@ pub enum StoreFault {
     DirInsteadOfFile { path: String },
     /// file replaced by arbitrary text
     Replace { path: String, text: String },
+    /// file cut at an exact byte offset (a half-written file)
+    TruncateAt { path: String, at: usize },
+    /// one bit flipped at an exact position
+    FlipAt { path: String, at: usize, bit: u8 },
 }
 
 #[derive(Clone, Debug, serde::Serialize, serde::Deserialize)]
@@ -129,11 +133,44 @@ fn apply_store_fault(sb: &Sandbox, f: &StoreFault) -> bool {
             sb.write(path, text.as_bytes());
             true
         }
+        StoreFault::TruncateAt { path, at } => match sb.read(path) {
+            Some(b) => {
+                sb.write(path, &b[..(*at).min(b.len())]);
+                true
+            }
+            None => false,
+        },
+        StoreFault::FlipAt { path, at, bit } => match sb.read(path) {
+            Some(mut b) if !b.is_empty() => {
+                let i = (*at).min(b.len() - 1);
+                b[i] ^= 1 << (bit % 8);
+                sb.write(path, &b);
+                true
+            }
+            _ => false,
+        },
     }
 }
 
 /// Execute one operation under one fault plan on a freshly materialised world and judge it.
+thread_local! {
+    /// (marker file, case name): when set, every operation is announced in the marker file before
+    /// it runs, so that the parent process can tell what killed a child (abort, stack overflow,
+    /// memory exhaustion, hang).
+    static MARKER: std::cell::RefCell<Option<(String, String)>> = const { std::cell::RefCell::new(None) };
+}
+
+fn announce(op: &OpSpec, plan: &FaultPlan) {
+    MARKER.with(|m| {
+        if let Some((path, case)) = &*m.borrow() {
+            let v = json!({"case": case, "op": op, "plan": plan});
+            let _ = std::fs::write(path, serde_json::to_vec(&v).unwrap());
+        }
+    });
+}
+
 pub fn execute(sb: &Sandbox, base: &Files, op: &OpSpec, plan: &FaultPlan) -> Observed {
+    announce(op, plan);
     sb.materialise(base);
     apply_store_fault(sb, &plan.store);
     let texts: Vec<Vec<u8>> = sb.snapshot().into_iter().filter(|(k, _)| k.ends_with(".gom")).map(|(_, v)| v).collect();
@@ -322,6 +359,22 @@ pub fn prepare(sb: &Sandbox, case: &Case) -> (Files, Vec<OpSpec>, Vec<String>, V
             a.push(s("--output"));
             a.push(s("{ROOT}/linked/main.go"));
             opsv.push(OpSpec { entry: "link".into(), args: a });
+            // incomplete / redundant core sets: one core left out, one core offered twice
+            if order.len() >= 2 {
+                for skip in 0..order.len() {
+                    let mut a = vec![s("goml"), s("link"), s("--input")];
+                    a.extend(order.iter().enumerate().filter(|(i, _)| *i != skip).map(|(_, n)| format!("{{ROOT}}/out/{n}.core")));
+                    a.push(s("--output"));
+                    a.push(s("{ROOT}/linked/main.go"));
+                    opsv.push(OpSpec { entry: "link".into(), args: a });
+                }
+                let mut a = vec![s("goml"), s("link"), s("--input")];
+                a.extend(order.iter().rev().map(|n| format!("{{ROOT}}/out/{n}.core")));
+                a.push(format!("{{ROOT}}/out/{}.core", order[0]));
+                a.push(s("--output"));
+                a.push(s("{ROOT}/linked/main.go"));
+                opsv.push(OpSpec { entry: "link".into(), args: a });
+            }
         }
     }
     let base = sb.snapshot();
@@ -345,8 +398,39 @@ struct CaseResult {
     digest: String,
 }
 
+/// If the plan's stored-byte fault altered exactly one field of a JSON artifact (and left it
+/// well-formed), the first path segment of that field, e.g. "/core_ir".
+fn altered_artifact_field(base: &Files, plan: &FaultPlan) -> Option<String> {
+    let path = match &plan.store {
+        StoreFault::Bytes { path, .. } | StoreFault::Field { path, .. } | StoreFault::FlipAt { path, .. } => path,
+        _ => return None,
+    };
+    if !(path.ends_with(".core") || path.ends_with(".interface")) {
+        return None;
+    }
+    let old = base.get(path)?;
+    let tmp = Sandbox::new("c04field").ok()?;
+    let mut one = Files::new();
+    one.insert(path.clone(), old.clone());
+    tmp.materialise(&one);
+    apply_store_fault(&tmp, &plan.store);
+    let new = tmp.read(path)?;
+    let a: Value = serde_json::from_slice(old).ok()?;
+    let b: Value = serde_json::from_slice(&new).ok()?;
+    let ptr = faults::first_difference(&a, &b, String::new())?;
+    let seg = ptr.split('/').find(|x| !x.is_empty())?;
+    Some(format!("/{seg}"))
+}
+
 fn mk_violation(case: &Case, base: &Files, op: &OpSpec, plan: &FaultPlan, class: &str, detail: &str) -> Violation {
-    let key = if class == "panic" { json!({"class": class, "entry": op.entry, "panic": panic_key(detail)}) } else { json!({"class": class, "entry": op.entry}) };
+    let field = altered_artifact_field(base, plan);
+    let key = match (&field, class) {
+        // a well-formed but altered artifact that is let through and then breaks a later stage:
+        // identified by which part of the artifact was altered, not by the panic text
+        (Some(f), "panic") => json!({"class": class, "entry": op.entry, "artifact_field": f}),
+        (_, "panic") => json!({"class": class, "entry": op.entry, "panic": panic_key(detail)}),
+        _ => json!({"class": class, "entry": op.entry}),
+    };
     Violation {
         property: PROP.into(),
         class: class.to_string(),
@@ -424,6 +508,43 @@ fn check_case(sb: &Sandbox, opts: &Opts, idx: usize, case: &Case, per_op: usize,
         for _ in 0..per_op {
             plans.push(random_plan(&mut p, &baseline, &sources, &artifacts, entropy));
         }
+        // half-written and bit-rotted files at exact byte positions: every file this kind of
+        // operation reads (sources for run/check/build, artifacts for check/build/link)
+        let pool: Vec<&String> = match op.entry.as_str() {
+            "run" => sources.iter().collect(),
+            "link" => artifacts.iter().filter(|a| a.ends_with(".core")).collect(),
+            _ => sources.iter().chain(artifacts.iter().filter(|a| a.ends_with(".interface"))).collect(),
+        };
+        if !pool.is_empty() {
+            let clean_spec = ProcSpec { entropy, readdir: entropy, ..Default::default() };
+            if enumerate && op.entry == "run" {
+                let mut budget = 6000usize;
+                for path in &pool {
+                    let len = base.get(*path).map(|b| b.len()).unwrap_or(0);
+                    for at in 0..len {
+                        if budget == 0 {
+                            break;
+                        }
+                        budget -= 1;
+                        plans.push(FaultPlan { store: StoreFault::TruncateAt { path: (*path).clone(), at }, spec: clean_spec.clone() });
+                    }
+                }
+            }
+            let n_exact = if enumerate { 200 } else { 10 };
+            for _ in 0..n_exact {
+                let path = (*p.pick(&pool)).clone();
+                let len = base.get(&path).map(|b| b.len()).unwrap_or(0);
+                if len == 0 {
+                    continue;
+                }
+                let store = if p.chance(1, 2) {
+                    StoreFault::TruncateAt { path, at: p.usize(len) }
+                } else {
+                    StoreFault::FlipAt { path, at: p.usize(len), bit: p.below(8) as u8 }
+                };
+                plans.push(FaultPlan { store, spec: clean_spec.clone() });
+            }
+        }
         for (pi, plan) in plans.iter().enumerate() {
             let obs = execute(sb, &base, op, plan);
             r.runs += 1;
@@ -440,6 +561,8 @@ fn check_case(sb: &Sandbox, opts: &Opts, idx: usize, case: &Case, per_op: usize,
                     StoreFault::Remove { .. } => "stored:file-vanished",
                     StoreFault::DirInsteadOfFile { .. } => "stored:directory-instead-of-file",
                     StoreFault::Replace { .. } => "stored:file-replaced",
+                    StoreFault::TruncateAt { .. } => "stored:truncated-at-exact-offset",
+                    StoreFault::FlipAt { .. } => "stored:bit-flipped-at-exact-offset",
                     StoreFault::None => "",
                 };
                 *r.fired.entry(kind.to_string()).or_insert(0) += 1;
